@@ -45,7 +45,10 @@ def mk_lanelet_network(spec):
         c, s = math.cos(l.get("rot", 0.0)), math.sin(l.get("rot", 0.0))
 
         def line(off):
-            return np.array([[c * (x - l["x0"]) - s * off + l["x0"], s * (x - l["x0"]) + c * off + l["y0"]] for x in xs])
+            pts = [[c * (x - l["x0"]) - s * off + l["x0"], s * (x - l["x0"]) + c * off + l["y0"]] for x in xs]
+            if l.get("z") is not None:  # 3-D vertices (the renderer projects to the xy-plane)
+                pts = [pt + [l["z"] + 0.1 * i] for i, pt in enumerate(pts)]
+            return np.array(pts)
         w = l["width"]
         stop = None
         if l.get("stop"):
@@ -61,7 +64,8 @@ def mk_lanelet_network(spec):
     net = LaneletNetwork.create_from_lanelet_list(lanelets, cleanup_ids=False)
     for sg in spec.get("signs", []):
         el = TrafficSignElement(TrafficSignIDGermany[sg["elem"]], list(sg.get("vals", [])))
-        net.add_traffic_sign(TrafficSign(sg["id"], [el], set(sg.get("first", [])), np.array(sg["pos"], dtype=float),
+        net.add_traffic_sign(TrafficSign(sg["id"], [el], set(sg.get("first", [])),
+                                         None if sg["pos"] is None else np.array(sg["pos"], dtype=float),
                                          bool(sg.get("virtual", False))), set())
     for tl in spec.get("lights", []):
         cyc = None
@@ -133,7 +137,11 @@ def mk_obstacle(o):
         pred = TrajectoryPrediction(Trajectory(t0, states), shape)
     elif p and p["kind"] == "set":
         pred = mk_set(p)
-    return DynamicObstacle(o["id"], ObstacleType[o["type"]], shape, init, pred, initial_signal_state=sig0,
+    hist = None
+    if o.get("history"):
+        hist = [mk_state(KSState, o["history"], o["init"]["t"] - 1)]
+        hist[0].steering_angle = 0.0
+    return DynamicObstacle(o["id"], ObstacleType[o["type"]], shape, init, pred, initial_signal_state=sig0, history=hist,
                            signal_series=[mk_signal(s, o["init"]["t"] + 1 + i) for i, s in enumerate(o.get("sigs", []))]
                            if o.get("sigs") is not None else None)
 
